@@ -47,7 +47,7 @@ def check(w, tier, t0):
     if not r.ok:
         raise lib.Inconclusive("WriteSet model run failed:\n" + (r.error or ""))
     states, trans = r.distinct, r.generated
-    n = 400 if tier == "quick" else 8000
+    n = 400 if tier == "quick" else 60000
     d = w.sub("run")
     events = []
     with ThreadPoolExecutor(max_workers=8) as ex:
